@@ -31,14 +31,14 @@ pub fn run_family_into(report: &mut Report, property: &str, family: &str, config
     let mut max_depth = 0usize; let mut capped: Vec<String> = Vec::new(); let mut per_config_rows: Vec<Value> = Vec::new();
     let mut samples: Vec<Value> = Vec::new(); let mut outcomes = 0u64; let mut events: std::collections::BTreeMap<String, u64> = Default::default();
     let mut determinism: Option<bool> = None;
-    let started = std::time::Instant::now();
+    let started_ns = crate::vclock::real_ns();
 
     for (index, cfg) in configs.iter().enumerate() {
         let cfg = Arc::new(cfg.clone());
-        let result: ConfigResult = explore(&cfg, &limits, &pool);
+        let result: ConfigResult<Ev> = explore::<World>(&cfg, &limits, &pool);
         if determinism.is_none() && !result.capped && result.states < 150_000 {
             // same search on a different number of threads must visit the same number of states and transitions
-            let again = explore(&cfg, &limits, &small_pool);
+            let again = explore::<World>(&cfg, &limits, &small_pool);
             let equal = again.states == result.states && again.transitions == result.transitions;
             determinism = Some(equal);
             if !equal && !again.capped {
@@ -67,7 +67,7 @@ pub fn run_family_into(report: &mut Report, property: &str, family: &str, config
             }
             let signature = (violation.property.clone(), violation.signature.clone());
             if report.violations.iter().any(|(v, _)| v.property == signature.0 && v.signature == signature.1) { continue; }
-            match confirm(&cfg, &found.history, &signature, found.in_closure) {
+            match confirm::<World>(&cfg, &found.history, &signature, found.in_closure) {
                 Ok(()) => {
                     let replay = write_replay(property, &violation.signature, &replay_body(family, tier, index, &cfg, &found.history, found.in_closure, violation));
                     report.violations.push((violation.clone(), replay));
@@ -81,7 +81,7 @@ pub fn run_family_into(report: &mut Report, property: &str, family: &str, config
                 }
             }
         }
-        if started.elapsed().as_secs_f64() > total_wall * 1.6 { capped.push(format!("wall budget exhausted after config {}", index)); break; }
+        if (crate::vclock::real_ns() - started_ns) as f64 / 1e9 > total_wall * 1.6 { capped.push(format!("wall budget exhausted after config {}", index)); break; }
     }
 
     report.set("engine", json!("E1 explicit-state BFS over the real ProtocolState (feature verif facade), histories re-executed from a fresh engine"));
@@ -159,19 +159,20 @@ pub fn debug_determinism(family: &str, tier: Tier, index: usize) -> i32 {
     let small = rayon::ThreadPoolBuilder::new().num_threads(3).build().unwrap();
     let t1 = Arc::new(Mutex::new(HashMap::new()));
     let t2 = Arc::new(Mutex::new(HashMap::new()));
-    let r1 = explore(&cfg, &Limits { max_states: 3_000_000, max_wall: Duration::from_secs(300), trace: Some(t1.clone()) }, &pool);
-    let r2 = explore(&cfg, &Limits { max_states: 3_000_000, max_wall: Duration::from_secs(300), trace: Some(t2.clone()) }, &small);
+    let r1 = explore::<World>(&cfg, &Limits { max_states: 3_000_000, max_wall: Duration::from_secs(300), trace: Some(t1.clone()) }, &pool);
+    let r2 = explore::<World>(&cfg, &Limits { max_states: 3_000_000, max_wall: Duration::from_secs(300), trace: Some(t2.clone()) }, &small);
     println!("run1 {}/{}  run2 {}/{}", r1.states, r1.transitions, r2.states, r2.transitions);
     let (a, b) = { let a = t1.lock().unwrap().clone(); let b = t2.lock().unwrap().clone(); if a.iter().any(|(k, _)| !b.contains_key(k)) { (a, b) } else { (b, a) } };
-    let mut candidates: Vec<(&u128, &(usize, Vec<Ev>))> = a.iter().filter(|(k, _)| !b.contains_key(*k)).collect();
+    let mut candidates: Vec<(&u128, &(usize, Vec<String>))> = a.iter().filter(|(k, _)| !b.contains_key(*k)).collect();
     candidates.sort_by_key(|(_, (d, _))| *d);
     let Some((_, (_, hist))) = candidates.first() else { println!("run1 has no state that run2 lacks ({} the other way)", b.iter().filter(|(k, _)| !a.contains_key(*k)).count()); return 0; };
+    let hist: Vec<Ev> = hist.iter().filter_map(|t| Ev::from_text(t)).collect();
     let parent = &hist[..hist.len() - 1];
     let ev = hist.last().unwrap();
     let mut wp = World::replay(&cfg, parent, false);
     // spent is part of the key: recompute it the way the explorer does is not possible here, so try all budgets
     let mut found = None;
-    for spent in 0..=cfg.budget { wp.spent = spent; let pk = wp.key(); if let Some((_, other)) = b.get(&pk) { found = Some((spent, other.clone())); break; } }
+    for spent in 0..=cfg.budget { wp.spent = spent; let pk = wp.key(); if let Some((_, other)) = b.get(&pk) { found = Some((spent, other.iter().filter_map(|t| Ev::from_text(t)).collect::<Vec<Ev>>())); break; } }
     println!("state only in run1: {:?}", hist.iter().map(|e| e.to_text()).collect::<Vec<_>>());
     match found {
         None => println!("parent key not found in run2 (parent itself differs)"),
